@@ -298,7 +298,22 @@ impl<'p, 'c, 'cc, V: SimVdaf<VK>, A: Adapter<V>, const VK: usize> World<'p, 'c, 
         key.copy_from_slice(vk);
         let mut aps = Vec::new();
         for s in &plan.aps {
-            aps.push(ad.agg_param(s)?);
+            // the aggregation parameter travels from the collector to the aggregators as bytes
+            let built = ad.agg_param(s)?;
+            let hid = crate::checks_a::honest_id(&plan.inst);
+            let Some(b) = mon_encode(ctx, "AggregationParam", &built) else {
+                ctx.fail(Violation::new(&format!("{hid}.agg_param_codec"), "agg_param|encode", format!("an admissible aggregation parameter ({} prefixes of length {}) cannot be encoded", s.len(), s.first().map(|x| x.len()).unwrap_or(0))));
+                aps.push(built);
+                continue;
+            };
+            use prio::codec::Decode;
+            match mon_decode(ctx, "AggregationParam", &b, 0, |x| V::AggregationParam::get_decoded(x), |v| v.get_encoded(), |v| v.encoded_len()) {
+                Some(d) => aps.push(d),
+                None => {
+                    ctx.fail(Violation::new(&format!("{hid}.agg_param_codec"), "agg_param|decode", format!("an admissible aggregation parameter ({} prefixes of length {}) does not decode from its own encoding", s.len(), s.first().map(|x| x.len()).unwrap_or(0))));
+                    aps.push(built);
+                }
+            }
         }
         let nodes = (0..n).map(|_| Node { reports: BTreeMap::new(), jobs: BTreeMap::new(), recompute: false }).collect();
         Ok(World {
@@ -1018,7 +1033,7 @@ impl<'p, 'c, 'cc, V: SimVdaf<VK>, A: Adapter<V>, const VK: usize> World<'p, 'c, 
                 }
                 // refusals leave the accumulator unchanged
                 if ag.refusals {
-                    self.refusal_checks(&apv, &sched, &sched_b, &outs);
+                    self.refusal_checks(ap as usize, &sched, &sched_b, &outs);
                 }
                 // aggregate share crosses the wire
                 let back = mon_decode(self.ctx, "AggregateShare", &sched_b, sched_b.len() + 4096, |x| V::AggregateShare::get_decoded_with_param(&(vdaf, &apv), x), |v| v.get_encoded(), |v| v.encoded_len());
@@ -1069,60 +1084,58 @@ impl<'p, 'c, 'cc, V: SimVdaf<VK>, A: Adapter<V>, const VK: usize> World<'p, 'c, 
         results
     }
 
-    fn refusal_checks(&mut self, apv: &V::AggregationParam, acc: &V::AggregateShare, acc_b: &[u8], outs: &[V::OutputShare]) {
-        let vdaf = self.vdaf;
-        // wrong-length output / aggregate shares, built by decoding under a different length when
-        // possible: we fabricate them from bytes of the wrong size via the field-vector decoder
+    fn refusal_checks(&mut self, ap_idx: usize, acc: &V::AggregateShare, acc_b: &[u8], outs: &[V::OutputShare]) {
+        // wrong-length (and, for Poplar1, wrong-level) output / aggregate shares fabricated from raw
+        // element bytes through the adapter
         let Some(o0) = outs.first() else { return };
         let Ok(ob) = o0.get_encoded() else { return };
-        let (fs, _) = self.ad.out_field(&Vec::new());
+        let apspec = self.plan.aps[ap_idx].clone();
+        let (fs, _) = self.ad.out_field(&apspec);
         if fs == 0 || ob.len() < fs {
             return;
         }
-        for delta in [-1i64, 1] {
-            let mut b = ob.clone();
-            if delta < 0 {
-                b.truncate(ob.len() - fs);
-            } else {
-                b.extend(std::iter::repeat(0u8).take(fs));
-            }
-            if let Some(bad) = self.ad_wrong_len_output(&b) {
-                let mut a = acc.clone();
-                let r = guard("accumulate(wrong length)", || a.accumulate(&bad));
-                match r {
-                    Err(v) => self.ctx.fail(v),
-                    Ok(Ok(())) => self.ctx.fail(Violation::new("C13.refusal", "accumulate|accepted_wrong_len", format!("accumulate accepted an output share of length {:+} elements", delta))),
-                    Ok(Err(_)) => {
-                        self.ctx.counters.inc("c13.refusals");
-                        if let Ok(ab) = a.get_encoded() {
-                            if ab != acc_b {
-                                self.ctx.fail(Violation::new("C13.refusal", "accumulate|changed", "a refused accumulate changed the accumulator"));
-                            }
+        let mut cands: Vec<(String, Option<V::OutputShare>)> = Vec::new();
+        let mut short = ob.clone();
+        short.truncate(ob.len() - fs);
+        cands.push(("one element short".into(), self.ad.wrong_len_output(&short, &apspec, false)));
+        let mut long = ob.clone();
+        long.extend(std::iter::repeat(0u8).take(fs));
+        cands.push(("one element long".into(), self.ad.wrong_len_output(&long, &apspec, false)));
+        let other_fs = if fs == 8 { 32 } else { 8 };
+        let cnt = ob.len() / fs;
+        cands.push(("other tree level kind".into(), self.ad.wrong_len_output(&vec![0u8; cnt * other_fs], &apspec, true)));
+        for (what, bad) in cands {
+            let Some(bad) = bad else { continue };
+            let mut a = acc.clone();
+            let r = guard("accumulate(mismatched share)", || a.accumulate(&bad));
+            match r {
+                Err(v) => self.ctx.fail(v),
+                Ok(Ok(())) => self.ctx.fail(Violation::new("C13.refusal", "accumulate|accepted_mismatch", format!("accumulate accepted an output share that is {what}"))),
+                Ok(Err(_)) => {
+                    self.ctx.counters.inc("c13.refusals");
+                    if let Ok(ab) = a.get_encoded() {
+                        if ab != acc_b {
+                            self.ctx.fail(Violation::new("C13.refusal", "accumulate|changed", format!("a refused accumulate ({what}) changed the accumulator")));
                         }
                     }
                 }
-                let mut a2 = acc.clone();
-                let other: V::AggregateShare = V::AggregateShare::from(bad.clone());
-                let r2 = guard("merge(wrong length)", || a2.merge(&other));
-                match r2 {
-                    Err(v) => self.ctx.fail(v),
-                    Ok(Ok(())) => self.ctx.fail(Violation::new("C13.refusal", "merge|accepted_wrong_len", format!("merge accepted an aggregate share of length {:+} elements", delta))),
-                    Ok(Err(_)) => {
-                        self.ctx.counters.inc("c13.refusals");
-                        if let Ok(ab) = a2.get_encoded() {
-                            if ab != acc_b {
-                                self.ctx.fail(Violation::new("C13.refusal", "merge|changed", "a refused merge changed the accumulator"));
-                            }
+            }
+            let mut a2 = acc.clone();
+            let other: V::AggregateShare = V::AggregateShare::from(bad.clone());
+            let r2 = guard("merge(mismatched share)", || a2.merge(&other));
+            match r2 {
+                Err(v) => self.ctx.fail(v),
+                Ok(Ok(())) => self.ctx.fail(Violation::new("C13.refusal", "merge|accepted_mismatch", format!("merge accepted an aggregate share that is {what}"))),
+                Ok(Err(_)) => {
+                    self.ctx.counters.inc("c13.refusals");
+                    if let Ok(ab) = a2.get_encoded() {
+                        if ab != acc_b {
+                            self.ctx.fail(Violation::new("C13.refusal", "merge|changed", format!("a refused merge ({what}) changed the accumulator")));
                         }
                     }
                 }
             }
         }
-        let _ = (vdaf, apv);
-    }
-
-    fn ad_wrong_len_output(&self, bytes: &[u8]) -> Option<V::OutputShare> {
-        self.ad.wrong_len_output(bytes)
     }
 }
 
@@ -1131,8 +1144,12 @@ pub fn debug_on() -> bool {
     *ON.get_or_init(|| std::env::var("VSIM_DEBUG").is_ok())
 }
 
-/// Sum of the output shares of one job as integers mod p (None for Field255 or mismatched lengths).
+/// Sum of the output shares of one job as integers mod p. `p == 0` with 32-byte elements means
+/// Field255 (2^255 - 19); sums that do not fit u128 are reported as u128::MAX (never valid).
 pub fn sum_outputs(outs: &[Vec<u8>], fs: usize, p: u128) -> Option<Vec<u128>> {
+    if fs == 32 && p == 0 {
+        return sum_outputs_255(outs);
+    }
     if p == 0 || fs == 0 || fs > 16 {
         return None;
     }
@@ -1149,4 +1166,63 @@ pub fn sum_outputs(outs: &[Vec<u8>], fs: usize, p: u128) -> Option<Vec<u128>> {
         }
     }
     Some(sum)
+}
+
+fn add255(a: [u64; 4], b: [u64; 4]) -> [u64; 4] {
+    // (a + b) mod (2^255 - 19), inputs < p
+    const P: [u64; 4] = [0xffff_ffff_ffff_ffed, 0xffff_ffff_ffff_ffff, 0xffff_ffff_ffff_ffff, 0x7fff_ffff_ffff_ffff];
+    let mut r = [0u64; 4];
+    let mut c = 0u128;
+    for i in 0..4 {
+        let t = a[i] as u128 + b[i] as u128 + c;
+        r[i] = t as u64;
+        c = t >> 64;
+    }
+    // r < 2p < 2^256 so no carry out; subtract p if r >= p
+    let ge = {
+        let mut ge = true;
+        for i in (0..4).rev() {
+            if r[i] != P[i] {
+                ge = r[i] > P[i];
+                break;
+            }
+        }
+        ge
+    };
+    if ge {
+        let mut bw = 0i128;
+        for i in 0..4 {
+            let t = r[i] as i128 - P[i] as i128 - bw;
+            if t < 0 {
+                r[i] = (t + (1i128 << 64)) as u64;
+                bw = 1;
+            } else {
+                r[i] = t as u64;
+                bw = 0;
+            }
+        }
+    }
+    r
+}
+
+fn sum_outputs_255(outs: &[Vec<u8>]) -> Option<Vec<u128>> {
+    let len = outs.first()?.len();
+    if len % 32 != 0 || outs.iter().any(|o| o.len() != len) {
+        return None;
+    }
+    let mut out = Vec::new();
+    for k in 0..len / 32 {
+        let mut acc = [0u64; 4];
+        for o in outs {
+            let mut w = [0u64; 4];
+            for i in 0..4 {
+                let mut b = [0u8; 8];
+                b.copy_from_slice(&o[k * 32 + i * 8..k * 32 + i * 8 + 8]);
+                w[i] = u64::from_le_bytes(b);
+            }
+            acc = add255(acc, w);
+        }
+        out.push(if acc[2] != 0 || acc[3] != 0 { u128::MAX } else { (acc[1] as u128) << 64 | acc[0] as u128 });
+    }
+    Some(out)
 }
